@@ -278,6 +278,7 @@ class Interp:
         self.np = self._mk_np()
         self.call_hooks = {}  # qualname -> python function(interp, args, kwargs) overriding a package function
         self.order_oracle = None  # optional: Poly difference -> sign (-1/0/1) or None; decides comparisons of symbolic integers
+        self.roundup_hook = None  # optional: (left poly, right poly) of a symbolic `&` -> value for the round-up idiom (x + a - 1) & -a
 
     # ------------------------------------------------------------------ path enumeration
     def explore(self, thunk, max_paths=256):
@@ -352,6 +353,9 @@ class Interp:
                     if (al.asname or al.name.split(".")[0]) == name:
                         if al.name == "numpy":
                             found = self.np
+                        elif al.name == "weakref":
+                            found = Namespace("weakref", {"WeakKeyDictionary": Builtin("WeakKeyDictionary", lambda *a: {}), "WeakValueDictionary": Builtin("WeakValueDictionary", lambda *a: {}),
+                                                          "WeakSet": Builtin("WeakSet", lambda *a: set()), "ref": Builtin("weakref.ref", lambda o, *a: Builtin("ref()", lambda: o))})
                         elif al.name == "itertools":
                             found = Namespace("itertools", {"count": Builtin("itertools.count", lambda start=0, step=1: IterVal(count_from=start, step=step)),
                                                             "product": Builtin("itertools.product", lambda *a, **k: list(itertools.product(*[self.iterate(x) for x in a], **k))),
@@ -1074,6 +1078,10 @@ class Interp:
                     return x >> y
                 if isinstance(op, ast.Div):
                     return x / y
+            if isinstance(op, ast.BitAnd) and self.roundup_hook is not None:
+                r = self.roundup_hook(pa, pb)
+                if r is not None:
+                    return r
             nm = type(op).__name__.lower()
             return Sym(Poly.atom(f"{nm}({pa!r}, {pb!r})"))
         if isinstance(op, ast.Add):
@@ -1453,6 +1461,14 @@ class Interp:
                 a.data[(i,)] = v
             return a
 
+        def full(shape, fill_value, dtype=None):
+            a = empty(shape)
+            if a.sym is not None:
+                raise AnalysisError("peval: np.full over symbolic dimensions")
+            for i in a.indices():
+                a.data[i] = fill_value
+            return a
+
         def ndindex(*dims):
             if not all(isinstance(d, int) for d in dims):
                 raise AnalysisError("peval: np.ndindex over symbolic dimensions")
@@ -1468,7 +1484,9 @@ class Interp:
         tbl = {
             "prod": Builtin("np.prod", prod),
             "empty": Builtin("np.empty", empty),
-            "zeros": Builtin("np.zeros", empty),
+            "zeros": Builtin("np.zeros", lambda shape, dtype=None: full(shape, 0)),
+            "ones": Builtin("np.ones", lambda shape, dtype=None: full(shape, 1)),
+            "full": Builtin("np.full", full),
             "array": Builtin("np.array", array),
             "asarray": Builtin("np.asarray", array),
             "ascontiguousarray": Builtin("np.ascontiguousarray", lambda x: x),
